@@ -306,7 +306,17 @@ func (tr *translator) stmts(list []ast.Stmt, e env) Sum {
 		}
 		if len(s.Results) > 1 {
 			var t STuple
-			for _, r := range s.Results {
+			res := tr.s.Fn.Type().(*types.Signature).Results()
+			for i, r := range s.Results {
+				// nil in the position of a map result (go/types keeps that nil untyped)
+				if id, ok := ast.Unparen(r).(*ast.Ident); ok && res.Len() == len(s.Results) {
+					if _, isNil := tr.info.Uses[id].(*types.Nil); isNil {
+						if _, isMap := res.At(i).Type().Underlying().(*types.Map); isMap {
+							t.Elems = append(t.Elems, SConst{Value{Kind: VNilTable}})
+							continue
+						}
+					}
+				}
 				t.Elems = append(t.Elems, tr.expr(r, e))
 			}
 			return t
